@@ -4,12 +4,13 @@ import (
 	"encoding/json"
 	"fmt"
 	"sort"
+	"strconv"
 	"strings"
 	"time"
 
 	"github.com/anishathalye/porcupine"
-	"github.com/openbao/openbao/v2/internal/builtin/logical/kv"
 	"github.com/openbao/openbao/sdk/v2/logical"
+	"github.com/openbao/openbao/v2/internal/builtin/logical/kv"
 )
 
 // C14 — versioned KV is a linearizable versioned register with exact
@@ -75,14 +76,30 @@ func (s kvState) key() string {
 type kvIn struct {
 	Op      string // write patch read delete undelete destroy purge meta
 	Path    string
-	Cas     int // -1: none
-	Version int // 0: latest
+	Cas     int    // -1: none
+	Version int    // 0: latest
+	More    string // delete / undelete / destroy: further versions named in the same request after Version ("3,1"), in request order
 	Data    string
 	PKey    string // patch: the field that is set to Data
 	// meta: -1 = not part of the request
 	MaxV   int
 	CasR   int
 	Custom string
+}
+
+// versions named by a delete / undelete / destroy request, in request order
+func (in kvIn) named(cur int) []int {
+	v := in.Version
+	if v == 0 {
+		v = cur
+	}
+	out := []int{v}
+	for _, f := range strings.Split(in.More, ",") {
+		if n, err := strconv.Atoi(f); err == nil {
+			out = append(out, n)
+		}
+	}
+	return out
 }
 
 type kvOut struct {
@@ -156,8 +173,12 @@ func kvSteps(st kvState, in kvIn, out kvOut) []kvState {
 				res = append(res, n)
 			}
 			d := st.clone()
+			named := map[int]bool{}
+			for _, v := range in.named(st.Cur) {
+				named[v] = true
+			}
 			for v, ver := range d.Vers {
-				if in.Op == "purge" || v == in.Version {
+				if in.Op == "purge" || named[v] {
 					ver.Damaged = true
 				}
 			}
@@ -248,13 +269,11 @@ func kvStep(st kvState, in kvIn, out kvOut) (bool, kvState) {
 		if out.Err != "" {
 			return false, st
 		}
-		v := in.Version
-		if v == 0 {
-			v = st.Cur
-		}
 		n := st.clone()
-		if ver := n.Vers[v]; ver != nil && !ver.Destroyed {
-			ver.Deleted = true
+		for _, v := range in.named(st.Cur) {
+			if ver := n.Vers[v]; ver != nil && !ver.Destroyed {
+				ver.Deleted = true
+			}
 		}
 		return true, n
 	case "undelete":
@@ -262,8 +281,10 @@ func kvStep(st kvState, in kvIn, out kvOut) (bool, kvState) {
 			return false, st
 		}
 		n := st.clone()
-		if ver := n.Vers[in.Version]; ver != nil && !ver.Destroyed {
-			ver.Deleted = false
+		for _, v := range in.named(st.Cur) {
+			if ver := n.Vers[v]; ver != nil && !ver.Destroyed {
+				ver.Deleted = false
+			}
 		}
 		return true, n
 	case "destroy":
@@ -271,9 +292,11 @@ func kvStep(st kvState, in kvIn, out kvOut) (bool, kvState) {
 			return false, st
 		}
 		n := st.clone()
-		if ver := n.Vers[in.Version]; ver != nil {
-			ver.Destroyed = true // (a deletion mark, if any, stays)
-			ver.Data = ""
+		for _, v := range in.named(st.Cur) {
+			if ver := n.Vers[v]; ver != nil {
+				ver.Destroyed = true // (a deletion mark, if any, stays)
+				ver.Data = ""
+			}
 		}
 		return true, n
 	case "purge":
@@ -434,12 +457,12 @@ func runC14(rc *RunCtx) {
 			if in.Version == 0 {
 				r = Req{Op: logical.DeleteOperation, Path: "v2/data/" + in.Path, Token: h.Root}
 			} else {
-				r = Req{Op: logical.UpdateOperation, Path: "v2/delete/" + in.Path, Token: h.Root, Data: map[string]any{"versions": []int{in.Version}}}
+				r = Req{Op: logical.UpdateOperation, Path: "v2/delete/" + in.Path, Token: h.Root, Data: map[string]any{"versions": in.named(0)}}
 			}
 		case "undelete":
-			r = Req{Op: logical.UpdateOperation, Path: "v2/undelete/" + in.Path, Token: h.Root, Data: map[string]any{"versions": []int{in.Version}}}
+			r = Req{Op: logical.UpdateOperation, Path: "v2/undelete/" + in.Path, Token: h.Root, Data: map[string]any{"versions": in.named(0)}}
 		case "destroy":
-			r = Req{Op: logical.UpdateOperation, Path: "v2/destroy/" + in.Path, Token: h.Root, Data: map[string]any{"versions": []int{in.Version}}}
+			r = Req{Op: logical.UpdateOperation, Path: "v2/destroy/" + in.Path, Token: h.Root, Data: map[string]any{"versions": in.named(0)}}
 		case "purge":
 			r = Req{Op: logical.DeleteOperation, Path: "v2/metadata/" + in.Path, Token: h.Root}
 		}
@@ -523,7 +546,7 @@ func runC14(rc *RunCtx) {
 		evt++
 		ret := evt
 		ops = append(ops, porcupine.Operation{ClientId: client, Input: in, Call: int64(call), Output: out, Return: int64(ret)})
-		hist = append(hist, fmt.Sprintf("[%d,%d] c%d %s %s cas=%d v=%d %s -> %+v", call, ret, client, in.Op, in.Path, in.Cas, in.Version, in.Data, out))
+		hist = append(hist, fmt.Sprintf("[%d,%d] c%d %s %s cas=%d v=%d%s %s -> %+v", call, ret, client, in.Op, in.Path, in.Cas, in.Version, map[bool]string{true: "," + in.More, false: ""}[in.More != ""], in.Data, out))
 		s.mu.Unlock()
 	}
 	// scripts
@@ -591,6 +614,15 @@ func runC14(rc *RunCtx) {
 				} else {
 					in.Op = "read"
 				}
+			}
+			// half of the requests that name versions name several: live ones,
+			// deleted / destroyed / pruned ones and ones never written, in any order
+			if (in.Op == "delete" || in.Op == "undelete" || in.Op == "destroy") && in.Version > 0 && tp.Pick(2) == 0 {
+				var more []string
+				for k := 0; k < 1+tp.Pick(2); k++ {
+					more = append(more, strconv.Itoa(1+tp.Pick(5)))
+				}
+				in.More = strings.Join(more, ",")
 			}
 			scripts[c] = append(scripts[c], in)
 		}
